@@ -17,13 +17,16 @@ for d in sorted(glob.glob("/verif/seeded/*")):
     r = sh(f"git -C {WT} apply {d}/patch.diff")
     if r.returncode != 0:
         print("SKIP", name, r.stderr[:100]); continue
-    t0 = time.time()
-    r = sh(f"VERIF_REPO={WT} /verif/bin/check {prop}")
-    tag = "VIOLATION" if "VIOLATION" in r.stdout else ("UNDECIDED" if r.returncode == 2 else ("OK" if r.returncode == 0 else "rc%d" % r.returncode))
-    lines = [l[:260] for l in r.stdout.split("\n") if l.startswith(("VIOLATION", "UNDECIDED"))][:4]
     meta = json.load(open(d + "/meta.json"))
-    meta[field] = {prop: {"result": tag, "seconds": round(time.time() - t0, 1), "lines": lines}}
+    meta[field] = {}
+    # a change seeded for one property may be another property's business as well (meta["verif_also"])
+    for pp in [prop] + [x for x in meta.get("verif_also", []) if x != prop]:
+        t0 = time.time()
+        r = sh(f"VERIF_REPO={WT} /verif/bin/check {pp}")
+        tag = "VIOLATION" if "VIOLATION" in r.stdout else ("UNDECIDED" if r.returncode == 2 else ("OK" if r.returncode == 0 else "rc%d" % r.returncode))
+        lines = [l[:260] for l in r.stdout.split("\n") if l.startswith(("VIOLATION", "UNDECIDED"))][:4]
+        meta[field][pp] = {"result": tag, "seconds": round(time.time() - t0, 1), "lines": lines}
+        print(name, pp, tag, round(time.time() - t0), flush=True)
+        for l in lines[:2]: print("    ", l[:180], flush=True)
     json.dump(meta, open(d + "/meta.json", "w"), indent=1)
-    print(name, tag, round(time.time() - t0), flush=True)
-    for l in lines[:2]: print("    ", l[:180], flush=True)
 sh(f"git -C {WT} checkout -- . && git -C {WT} clean -fdq -e target")
